@@ -66,6 +66,15 @@ type MyF32 float32
 type MyList []int
 type MyMap map[string]string
 
+// Hid has unexported fields in front of and between its exported ones (same exported shape as Rec: A string, B int64).
+type Hid struct {
+	mu  int32
+	A   string
+	pad bool
+	B   int64
+	end string
+}
+
 // Rec is a named struct with value- and pointer-receiver methods over named types.
 type Rec struct {
 	A string
@@ -105,6 +114,7 @@ var leaves = map[string]leafInfo{
 	"MyList": {reflect.TypeOf(MyList(nil)), []string{"slice", "int"}},
 	"MyMap":  {reflect.TypeOf(MyMap(nil)), []string{"map", "string"}},
 	"Rec":    {reflect.TypeOf(Rec{}), []string{"s2", "int64"}},
+	"Hid":    {reflect.TypeOf(Hid{}), []string{"s2", "int64"}},
 	// deliberately unsupported kinds
 	"complex128": {reflect.TypeOf(complex128(0)), nil}, "chan": {reflect.TypeOf((chan int)(nil)), nil},
 	"func": {reflect.TypeOf((func())(nil)), nil},
@@ -201,6 +211,7 @@ func init() {
 	regLeaf[MyList]("MyList")
 	regLeaf[MyMap]("MyMap")
 	regLeaf[Rec]("Rec")
+	regLeaf[Hid]("Hid")
 	regLeaf[any]("iface")
 	// unsupported kinds: depth <= 1 only
 	reg[complex128]("complex128")
@@ -459,13 +470,20 @@ func build(rt reflect.Type, orig, chain []string, d int, cls string) (reflect.Va
 		out.Field(0).Set(e)
 		return out, nil
 	case "s2":
+		// the exported fields, in order (a named struct may have unexported ones around them)
+		var ex []int
+		for i := 0; i < rt.NumField(); i++ {
+			if rt.Field(i).IsExported() {
+				ex = append(ex, i)
+			}
+		}
 		out := reflect.New(rt).Elem()
-		out.Field(0).SetString("tag")
-		e, err := sub(rt.Field(1).Type, cls)
+		out.Field(ex[0]).SetString("tag")
+		e, err := sub(rt.Field(ex[1]).Type, cls)
 		if err != nil {
 			return e, err
 		}
-		out.Field(1).Set(e)
+		out.Field(ex[1]).Set(e)
 		return out, nil
 	}
 	return reflect.Value{}, fmt.Errorf("unknown constructor %q", head)
@@ -1023,7 +1041,7 @@ func handle(req N) (resp N) {
 
 var genCtors = []string{"ptr", "slice", "arr1", "arr2", "map", "s1", "s2", "iface"}
 var genLeaves = []string{"bool", "int8", "int16", "int32", "int64", "int", "uint8", "uint16", "uint32", "uint64", "uint",
-	"float32", "float64", "string", "time", "MyInt", "MyStr", "MyFloat", "MyBool", "Duration", "MyU64", "MyU8", "MyI8", "MyF32", "MyList", "MyMap", "Rec"}
+	"float32", "float64", "string", "time", "MyInt", "MyStr", "MyFloat", "MyBool", "Duration", "MyU64", "MyU8", "MyI8", "MyF32", "MyList", "MyMap", "Rec", "Hid"}
 
 func genCases(seed int64, n, depth int) []N {
 	rng := rand.New(rand.NewSource(seed))
